@@ -42,6 +42,29 @@ class ThreadsProperty:
         for q in th.shrink_scenario(th.normalise(case["sc"])):
             yield dict(sc=q)
 
+    def shrink_schedule(self, case, clause):
+        """second phase, after the scenario itself is minimal: record the seeded run's schedule and fault decisions as a
+        tape, confirm that replaying the tape reproduces the violation, then minimise the tape. The returned case carries
+        the tape (its replay no longer depends on the PRNG); if pinning does not reproduce, the seeded case is kept."""
+        sc = th.normalise(case["sc"])
+        if sc.get("tape") is not None:
+            return case, None
+        rec = dict(sc, emit_tape=1)
+        _, _, res = self.execute(dict(sc=rec), False)
+        tape = th.recorded_tape(res.events)
+        if tape is None:
+            return case, None
+
+        def run_same(t):
+            out = self.run(dict(sc=dict(sc, tape=list(t))))
+            return bool(out.violation) and out.violation["clause"] == clause and not out.harness_error
+
+        if not run_same(tape):
+            return case, dict(pinned=False, decisions=len(tape))
+        small, runs = th.shrink_tape(run_same, tape)
+        info = dict(pinned=True, decisions_recorded=len(tape), decisions_kept=len(small), non_default=sum(1 for x in small if x), shrink_runs=runs)
+        return dict(sc=dict(sc, tape=small)), info
+
 
 class C16(ThreadsProperty):
     id = "C16"
